@@ -18,7 +18,8 @@ def copy_tree(repo, dest):
     if os.path.exists(dest):
         shutil.rmtree(dest)
     os.makedirs(dest)
-    subprocess.run(['rsync', '-a', '--exclude', '/target', '--exclude', '.git', '--exclude', '/examples/rp-pico',
+    # --no-times: every copy gets fresh mtimes, so cargo never mistakes a stale build (of another tree) for fresh
+    subprocess.run(['rsync', '-a', '--no-times', '--exclude', '/target', '--exclude', '.git', '--exclude', '/examples/rp-pico',
                     repo.rstrip('/') + '/', dest + '/'], check=True)
 
 
